@@ -41,3 +41,35 @@ pub open spec fn fgt(a: f32, b: f32) -> bool { a.partial_cmp_spec(&b) == Some(Or
 pub open spec fn fge(a: f32, b: f32) -> bool { a.partial_cmp_spec(&b) == Some(Ordering::Greater) || a.partial_cmp_spec(&b) == Some(Ordering::Equal) }
 #[verifier::external_body]
 pub fn fabs(x: f32) -> (r: f32) ensures r == fabs_spec(x) { x.abs() }
+
+// A1 extended to std float methods and constants the pinned code does not use: an edit that introduces one of them is
+// thereby DECIDED against the contracts (a clamp / max / epsilon in a formula fails the function's postcondition unless
+// the contract allows it) instead of being rejected as "not supported" (which would leave the check undecided).
+// Each is the deterministic, otherwise unknown, value the std method returns (their panics, e.g. clamp with lo > hi,
+// are not modelled: none of these methods occurs in the pinned code).
+pub mod fstd {
+    use vstd::prelude::*;
+    pub uninterp spec fn fclamp_spec(x: f32, lo: f32, hi: f32) -> f32;
+    pub uninterp spec fn fmax_spec(a: f32, b: f32) -> f32;
+    pub uninterp spec fn fmin_spec(a: f32, b: f32) -> f32;
+    pub uninterp spec fn fsqrt_spec(a: f32) -> f32;
+    pub uninterp spec fn fsignum_spec(a: f32) -> f32;
+    pub uninterp spec fn fcopysign_spec(a: f32, b: f32) -> f32;
+    pub uninterp spec fn fmul_add_spec(a: f32, b: f32, c: f32) -> f32;
+    pub uninterp spec fn frecip_spec(a: f32) -> f32;
+    pub uninterp spec fn fconst_spec(which: int) -> f32;
+}
+pub assume_specification[ f32::clamp ](x: f32, lo: f32, hi: f32) -> (r: f32) ensures r == fstd::fclamp_spec(x, lo, hi);
+pub assume_specification[ f32::max ](a: f32, b: f32) -> (r: f32) ensures r == fstd::fmax_spec(a, b);
+pub assume_specification[ f32::min ](a: f32, b: f32) -> (r: f32) ensures r == fstd::fmin_spec(a, b);
+pub assume_specification[ f32::abs ](a: f32) -> (r: f32) ensures r == fabs_spec(a);
+pub assume_specification[ f32::sqrt ](a: f32) -> (r: f32) ensures r == fstd::fsqrt_spec(a);
+pub assume_specification[ f32::signum ](a: f32) -> (r: f32) ensures r == fstd::fsignum_spec(a);
+pub assume_specification[ f32::copysign ](a: f32, b: f32) -> (r: f32) ensures r == fstd::fcopysign_spec(a, b);
+pub assume_specification[ f32::mul_add ](a: f32, b: f32, c: f32) -> (r: f32) ensures r == fstd::fmul_add_spec(a, b, c);
+pub assume_specification[ f32::recip ](a: f32) -> (r: f32) ensures r == fstd::frecip_spec(a);
+// f32::EPSILON / MAX / MIN / MIN_POSITIVE / INFINITY / NEG_INFINITY / NAN are rewritten to f32_const(k) (rewrite R16)
+#[verifier::external_body]
+pub fn f32_const(which: u8) -> (r: f32) ensures r == fstd::fconst_spec(which as int) {
+    match which { 0 => f32::EPSILON, 1 => f32::MAX, 2 => f32::MIN, 3 => f32::MIN_POSITIVE, 4 => f32::INFINITY, 5 => f32::NEG_INFINITY, _ => f32::NAN }
+}
